@@ -1,5 +1,21 @@
 # C02: pieces of the series inverse solver are modelled in Lean (Model/GeodInvSeries.lean)
+import hashlib as _hl, os as _os
+_verif = _os.path.dirname(_os.path.dirname(_os.path.dirname(_os.path.abspath(__file__))))
+_repo = _os.environ.get("GV_REPO", "/repo")
+
+
+def _tool_digest():
+    # harness/C02.cpp compiles $GV_REPO/tools/GeodSolve.cpp into itself (observe_at: tools/GeodSolve -i): the harness cache key must
+    # depend on its text (the generic key covers only the library and the harness sources)
+    try:
+        return _hl.sha256(open(_os.path.join(_repo, "tools", "GeodSolve.cpp"), "rb").read()).hexdigest()[:16]
+    except OSError:
+        return "0"
+
+
 _P = PROPS["C02"]
+_P["harnesses"] = [dict(name="C02", procs_quick=4, procs_thorough=16,
+                        extra=["-I" + _os.path.join(_verif, "harness", "C10_tools"), "-DGV_TOOLS_DIGEST=0x" + _tool_digest()])]
 _P["gens"] = ["gen_math", "gen_geodseries"]
 _P["rule"] += ("; for every pair with f < 1 the private Geodesic::InverseStart, Geodesic::Lambda12 (on the pair's reduced latitudes, a trial azimuth incl. 0, 90, 180 ± 1e-10, "
                "and the longitude difference) and Geodesic::Astroid (axis, tiny y, next to the evolute, far field) are compared with Model/GeodInvSeries.lean, "
@@ -10,4 +26,40 @@ _P["level_text"] += (
     " Geodesic::Astroid, Geodesic::InverseStart (short-line, spherical and astroid starting guesses) and Geodesic::Lambda12 (with its derivative through Geodesic::Lengths) are modelled in Lean (Model/GeodInvSeries.lean, same arithmetic in the same "
     "order) and executed in binary64 against the private functions. Theorem astroid_root: over ℝ, for x, y ≠ 0 and a non-negative discriminant (Cardano branch, on or "
     "outside the astroid) Astroid returns the positive root k of k⁴ + 2k³ − (x² + y² − 1)k² − 2y²k − y² = 0 (Ferrari/Cardano algebra shared with the geocentric "
-    "conversion). Not modelled: the Newton/bisection loop and the meridian/equator branches of GenInverse (oracle closure only); the trigonometric branch of Astroid is correspondence only.")
+    "conversion); the trigonometric branch of Astroid is correspondence only."
+    " Deepening round: the whole of GenInverse behind the canonicalisation is a Lean model (Model/GeodInvFull.lean, polymorphic in the number type, same operations in the same order): reduced latitudes with the "
+    "ordering guard of fix 48445e6, the meridional candidate with its acceptance sig12 < 1 || m12x >= 0 and short-line guard (factor 1 / 8 after fix e05e74d), the equatorial branch, its cut-off lon12s >= f·180 and the clamp a12 ≤ 180 of fix 62054f0, "
+    "the short-line exit, the Newton/bisection loop (bracket, tripn, tripb, maxit1_, maxit2_ = maxit1_ + 2·digits + 20 of fix fe4d9c6, stop rule of fixes d06599a / 61b2dd2, exit at alp1 = 90° of fix 8088996; total by a fuel parameter), the final Lengths, the three ways alp12 is computed, S12, the "
+    "swapp/lonsign/latsign restoration and atan2d. The numeric kernels (Lengths, InverseStart, Lambda12, area integral) are a record; theorems quantify over every such record. "
+    "THEOREMS, every number type incl. binary64: loop_budget (at most maxit2_+1 kernel evaluations, numit ≤ maxit2_, the model's fuel is never exhausted), loop_budget_binary64 (maxit2_ = maxit1_ + 2·53 + 20 = 146 since fix fe4d9c6), loop_fuel_enough, loop_exits (tripb, |v| below tolerance, budget, or equatorial end points at alp1 = 90° with v > 0 — fix 8088996); bracket_update (one pass moves at most one end, to the "
+    "current point, the upper one only if v > 0, the lower one only if v < 0), pass_moves_bracket_by_update, bracket_ends_observed (on exit each end is the initial one or a point where Lambda12 was evaluated with the sign that puts "
+    "the root on the other side), after_maxit1_bisection (from maxit1_ on every pass is a bisection), after_maxit1_replace, newton_step_guard. THEOREMS over ℝ, every kernel: iterates_in_open_interval (unit vectors with sin α₁ > 0), "
+    "bracket_contains_root (for a kernel that is positive only above and negative only below a root the root stays strictly inside the bracket), bracket_ends_monotone, bisection_inside_bracket (cotangent of the new point is the mediant), "
+    "bisection_halves_angle (the normalised chord midpoint of directions A, B is the direction (A+B)/2), a12_range (0 ≤ a12 ≤ 180 on every branch for kernels with arcs in [0, π], for f < 1 and lon12 ≥ 0 only — unconditional since the clamp of fix 62054f0), equatorial_a12_le_180 (every number type whose < is irreflexive at 180, binary64 included: the equatorial a12 never compares > 180 and a NaN passes through), equatorial_a12_exact and a12_range_series (no hypothesis on kernels: the Lean "
+    "Lambda12 and InverseStart satisfy the contract), reduced_latitudes_ordered and lambda12_radicand_nonneg with lambda12_calp2 (after the ordering guard of fix 48445e6 the radicand of calp2 in Lambda12 is non-negative for every trial azimuth: "
+    "no sqrt of a negative number, what F55 was), s12_nonneg_short, s12_nonneg_equatorial, series_dnm_nonneg, equatorial_closed_form (s12 = a λ12, m12 = b sin(λ12/f1), M12 = M21 = cos(λ12/f1), a12 = min(lon12/f1, 180), S12 = 0, azimuths ±90) "
+    "with series_area_equatorial, meridional_closed_form, meridional_azimuth_far and meridional_azimuths (azimuths exactly 0 or 180), full_exchange / full_equator / full_meridian (the symmetry laws for the whole function, every kernel) and "
+    "flags_do_not_reach_the_solver; series_f64_exchange / _equator / _meridian instantiate the binary64 laws with the full series model as core. "
+    "CORRESPONDENCE: op geninv_series runs the full Lean series solver in binary64 on the inputs of Geodesic::GenInverse (only the values of Math::sincosd / sincosde are handed over; the head of GenInverse is recomputed by the exact "
+    "binary64 model and must agree exactly); op geninv_kern runs the same bookkeeping model for Geodesic and GeodesicExact with kernel values taken from the implementation's own private Lambda12 / Lengths / InverseStart at the iterates of "
+    "its Newton loop (made visible through maxit2_ = 0, 1, 2, …) — on the unchanged tree model and implementation follow the same trajectory in every case sampled. "
+    "NOT PROVED: convergence of the Newton iteration, that Lambda12 has the sign structure assumed by bracket_contains_root, global minimality; s12 ≥ 0 on the meridional and Newton branches; the F64 laws of the head (AngDiff antisymmetry) are C16's. "
+    "Findings of this round: F68 a12 > 180 by ulps at the equatorial cut-off (repaired 62054f0; the clamp is in the model: equatorial_a12_le_180 holds for binary64), F69 zero-length answer 1–64 ulp beyond the cut-off on strongly oblate "
+    "ellipsoids (repaired 8088996; the new exit is in stopNow: loop_exits), F70 bisection budget too small (repaired fe4d9c6; loop_budget_binary64: at most 147 evaluations), the unassigned s12x of GeodesicExact's meridional guard "
+    "(= F67, repaired dc6d194). OPEN: F71 non-shortest answer (second root of lambda12, m12 < 0, thousands of km longer) on strongly prolate ellipsoids (f ≤ −0.3) for points within round-off of opposite meridians; class decided in the "
+    "harness (f ≤ −0.25, |180 − |lon12|| ≤ 1e-5°, returned m12 < −1 m), everything else alarms. One false alarm of the new strata removed: the position tolerance is scaled with the quarter meridian (the normalisation of the library's "
+    "accuracy tables) instead of a on prolate ellipsoids.")
+_P["rule"] += ("; deepening round strata next to every branch boundary of GenInverse: inverse-14 equatorial cut-off lon12 = 180(1−f) ± 4 ulp incl. denormal latitudes, inverse-15 tiny latitudes 1e-18…1e-5° around the equatorial conjugate "
+               "distance (loop crosses maxit1_, ends by tripb / maxit2_), inverse-16 meridional candidate on the boundary of its acceptance (found by bisection on the returned azimuth) and arcs of one radian over the pole, inverse-17 arc length "
+               "etol2·(1 ± 10^-k) (short-line exit), inverse-18 lon12 = 180 ± 3 ulp with inexact longitude differences, inverse-19 both points at / next to the same or opposite poles, inverse-20 denormal latitudes and longitude differences, "
+               "inverse-21 nearly antipodal on f = ±0.1 … 0.75, −1, −3; histogram branch-{meridional, equatorial, short-line, newton-le3, -le19, -past-maxit1, -maxit2}[-meridian-rejected] of what the implementation did; every third pair through all "
+               "Inverse overloads, GenInverse, InverseLine of Geodesic, GeodesicExact, Geodesic(a,f,true) (op ginv_entry); every fifth pair (snapped to 2^-20°) through tools/GeodSolve -i with -E -f -b -a -u combinations (op geodsolve_inv)")
+_P["tolerances"].update({
+    "geninv_series / geninv_kern: head of GenInverse (canonical latitudes, lon12, AngDiff error term, flags)": "exact (Lean, binary64 model of C16), up to the sign of a zero",
+    "geninv_series / geninv_kern: reduced latitudes, outputs on branches without iteration, outputs after the same number of Newton steps": "4 × first-order running error bound of the model's own evaluation (FP/RunErr.lean)",
+    "geninv_series / geninv_kern: different branch / iteration count / trajectory": "drift indicator (counted as skipped), alarm only if s12, a12 or the azimuths (conditioned by m12) differ by more than 2 × 4 × documented accuracy",
+    "entry points (Inverse overloads, GenInverse, InverseLine azimuth and arc)": "bit for bit; InverseLine distance and closure: 1 × / 3 × tol",
+    "GeodSolve -i": "half a unit of the last printed digit (-p 10) + 4 ulp",
+})
+_P["technique"] = ("Lean 4: kernel-parametric model of the whole GenInverse with theorems for every kernel (loop invariants, ranges, closed forms, symmetries) + execution of the model in binary64 against the implementation "
+                   "(full series solver; bookkeeping on the implementation's own kernel values for both solvers) + exact wrapper correspondence + oracle closure")
